@@ -26,3 +26,4 @@ open BeffVerif.C16
 #print axioms BeffVerif.C16R.schema_refs
 #print axioms BeffVerif.C16R.definition_refs_resolve
 #print axioms BeffVerif.C16R.returned_refs_resolve
+#print axioms BeffVerif.C16R.schema_flat_no_refs
